@@ -147,6 +147,38 @@ def _answers(c: Converter, cur, uri):
     return out
 
 
+def consistency_error(c: Converter, d: str):
+    """Compare a (possibly incrementally built) converter with a fresh strict converter over copies of its records.
+
+    Returns a message, or None if every lookup structure and every query answer agrees and each string of each record
+    resolves to exactly that record (C04 uniqueness)."""
+    recs = dump_records(c)
+    try:
+        fresh = Converter(mk_records(copy.deepcopy(recs)), delimiter=d)
+    except ValueError as e:
+        return f"current records are no longer accepted by a strict Converter: {type(e).__name__}: {str(e)[:200]}"
+    a, b = lookup_snapshot(c), lookup_snapshot(fresh)
+    for k in a:
+        if a[k] != b[k]:
+            only_inc = {x: a[k][x] for x in a[k] if a[k].get(x) != b[k].get(x)}
+            only_fresh = {x: b[k][x] for x in b[k] if a[k].get(x) != b[k].get(x)}
+            return f"lookup structure {k} is stale: this converter has {only_inc!r}, a fresh converter over its records has {only_fresh!r}"
+    cur, uri = _probes(recs, d)
+    x, y = _answers(c, cur, uri), _answers(fresh, cur, uri)
+    for k in x:
+        if x[k] != y[k]:
+            return f"{k}: this converter answers {x[k]!r}, a fresh converter over the same records answers {y[k]!r}"
+    for r in recs:
+        for p in prefixes_of(r):
+            if c.standardize_prefix(p) != r["prefix"]:
+                return f"prefix {p!r} resolves to {c.standardize_prefix(p)!r}, its record is {r['prefix']!r}"
+        for u in uri_prefixes_of(r):
+            pr = c.parse_uri(u, return_none=True)
+            if pr is None or pr[0] != r["prefix"] or pr[1] != "":
+                return f"URI prefix {u!r} parses to {pr!r}, its record is {r['prefix']!r}"
+    return None
+
+
 class History:
     def __init__(self, spec, stats: Stats):
         self.spec = copy.deepcopy(spec)
@@ -213,34 +245,13 @@ class History:
         self._consistent()
 
     def _consistent(self):
-        c = self.conv
-        recs = dump_records(c)
-        try:
-            fresh = Converter(mk_records(copy.deepcopy(recs)), delimiter=self.d)
-        except ValueError as e:
-            self.fail(f"current records are no longer accepted by a strict Converter: {type(e).__name__}")
-        a, b = lookup_snapshot(c), lookup_snapshot(fresh)
-        for k in a:
-            if a[k] != b[k]:
-                only_inc = {x: a[k][x] for x in a[k] if a[k].get(x) != b[k].get(x)}
-                only_fresh = {x: b[k][x] for x in b[k] if a[k].get(x) != b[k].get(x)}
-                self.fail(f"lookup structure {k} is stale: incremental has {only_inc!r}, a fresh converter has {only_fresh!r}")
-        cur, uri = _probes(recs, self.d)
-        x, y = _answers(c, cur, uri), _answers(fresh, cur, uri)
-        for k in x:
-            if x[k] != y[k]:
-                self.fail(f"{k}: incremental converter answers {x[k]!r}, a fresh converter over the same records answers {y[k]!r}")
-        # every string of every record resolves to exactly that record
-        for r in recs:
+        err = consistency_error(self.conv, self.d)
+        if err:
+            self.fail(err)
+        for r in dump_records(self.conv):
             for p in prefixes_of(r):
-                if c.standardize_prefix(p) != r["prefix"]:
-                    self.fail(f"prefix {p!r} resolves to {c.standardize_prefix(p)!r}, its record is {r['prefix']!r}")
                 if p in self.merged_in and p != r["prefix"]:
                     self.flags.add("query-via-merged-synonym")
-            for u in uri_prefixes_of(r):
-                pr = c.parse_uri(u, return_none=True)
-                if pr is None or pr[0] != r["prefix"] or pr[1] != "":
-                    self.fail(f"URI prefix {u!r} parses to {pr!r}, its record is {r['prefix']!r}")
 
     def finish(self):
         self.stats.extra["histories"] = self.stats.extra.get("histories", 0) + 1
